@@ -12,6 +12,8 @@ STATIC_THEOREMS = [
 def commands(rng, s):
     """one random command of the history grammar; returns (name, result)"""
     a = s.arr
+    if rng.chance(1, 12):
+        return 'fix range', s.run('fix', *rng.choice([['-S', str(rng.below(3)), '-B', str(1 + rng.below(3))], ['-B', str(1 + rng.below(4))]]))
     k = rng.below(20)
     if getattr(s, 'churn', False):
         k = rng.choice([0, 0, 5, 5, 5, 8, 9, 14])
@@ -35,7 +37,8 @@ def commands(rng, s):
         plan = rng.choice(['full', 'new', 'bad', '50', '100'])
         return 'scrub', s.run('scrub', '-p', plan, *(['-o', '0'] if plan.isdigit() else []))
     if k < 18:
-        return 'fix', s.run('fix', *rng.choice([[], ['-e'], ['-f', 'base0/'], ['-d', a.disks[0]]]))
+        # incl. fix restricted to a block range (the range is a filter like the others: nothing outside it may change)
+        return 'fix', s.run('fix', *rng.choice([[], ['-e'], ['-f', 'base0/'], ['-d', a.disks[0]], ['-S', str(rng.below(3)), '-B', str(1 + rng.below(3))], ['-B', str(1 + rng.below(4))]]))
     if k < 19:
         return 'touch', s.run('touch')
     return 'rehash', s.run('rehash')
